@@ -244,7 +244,9 @@ Definition insert_col (dbg : bool) (cap_limit : N) (spare : nat)
     end.
 
 (** * Drains (DESIGN 2.5) *)
-Inductive drain_step : Type := DFront | DBack | DLen.
+(** [DSkipFront] / [DSkipBack]: an element taken by the default [Iterator::nth] /
+    [nth_back] on its way to the requested one: handed out and dropped at once, not reported *)
+Inductive drain_step : Type := DFront | DBack | DLen | DSkipFront | DSkipBack.
 Inductive drain_end : Type := DropIt | ForgetIt.
 (** what the caller observes from one drain step *)
 Inductive drain_obs : Type := ObsItem (x : option A) | ObsLen (n : nat).
@@ -270,6 +272,16 @@ Fixpoint run_vec_drain (steps : list drain_step) (rem : list A) : list drain_obs
       | [] => let '(o, y, r) := run_vec_drain tl rem in (ObsItem None :: o, y, r)
       | x :: rrem' =>
           let '(o, y, r) := run_vec_drain tl (rev rrem') in (ObsItem (Some x) :: o, x :: y, r)
+      end
+  | DSkipFront :: tl =>
+      match rem with
+      | [] => run_vec_drain tl rem
+      | x :: rem' => let '(o, y, r) := run_vec_drain tl rem' in (o, x :: y, r)
+      end
+  | DSkipBack :: tl =>
+      match rev rem with
+      | [] => run_vec_drain tl rem
+      | x :: rrem' => let '(o, y, r) := run_vec_drain tl (rev rrem') in (o, x :: y, r)
       end
   end.
 
@@ -348,6 +360,18 @@ Fixpoint run_dc (steps : list drain_step) (d : draincol)
       r <- run_dc tl d1 ;;
       let '(o, y, d') := r in
       Ok (ObsItem x :: o, match x with Some e => e :: y | None => y end, d')
+  | DSkipFront :: tl =>
+      p <- dc_next d ;;
+      let '(x, d1) := p in
+      r <- run_dc tl d1 ;;
+      let '(o, y, d') := r in
+      Ok (o, match x with Some e => e :: y | None => y end, d')
+  | DSkipBack :: tl =>
+      p <- dc_next_back d ;;
+      let '(x, d1) := p in
+      r <- run_dc tl d1 ;;
+      let '(o, y, d') := r in
+      Ok (o, match x with Some e => e :: y | None => y end, d')
   end.
 
 (** exhaust the drain ([while let Some(item) = self.next()] / [for_each(drop)]) *)
